@@ -589,6 +589,7 @@ function ARRAY_AGG(val, post_proc=null) {
     return query_context.aggregation_stage < 2 ? init_aggregator(ArrayAggAggregator, val, post_proc) : val;
 }
 const array_agg = ARRAY_AGG;
+const Array_agg = ARRAY_AGG;
 const FOLD = ARRAY_AGG; // "FOLD" is deprecated, just for backward compatibility
 
 
